@@ -11,6 +11,7 @@ mod text;
 mod helpers;
 mod api;
 mod xadd;
+mod x86step;
 
 use std::io::{BufRead, Write};
 
@@ -33,6 +34,7 @@ fn run_line(line: &str) -> String {
         "api" => api::run(&toks),
         "xadd" => xadd::run(&toks),
         "exec" => exec::run(&toks),
+        "x86" => x86step::run(&toks),
         _ => "bad-op".into(),
     }
 }
@@ -71,6 +73,7 @@ fn main() {
                 "exec-anyprog-engines" => exec::gen_anyprog_engines(&mut w, thorough, seed),
                 "exec-pageboundary" => exec::gen_pageboundary(&mut w, thorough, seed),
                 "exec-long" => exec::gen_long(&mut w, thorough, seed),
+                "x86step" => x86step::gen(&mut w, thorough, seed),
                 _ => { eprintln!("unknown suite {suite}"); std::process::exit(2); }
             }
             w.flush().unwrap();
